@@ -253,6 +253,9 @@ pub fn item_features(tokens: &str) -> Vec<&'static str> {
         let words: Vec<&str> = tokens.split(|c: char| !(c.is_alphanumeric() || c == '_')).filter(|w| !w.is_empty()).collect();
         let is_value = words.first().is_some_and(|w| *w == "pub" || *w == "lazy_static") && (words.contains(&"static") || words.contains(&"const"));
         let is_fn = words.first() == Some(&"fn");
+        if t.contains("fndecode<D:Decoder>") {
+            f.push("open-type-decode-helper");
+        }
         if is_value || is_fn {
             if t.contains("vec![") {
                 f.push("array-valued-value");
@@ -739,6 +742,14 @@ pub fn msg_class(code: &str, msg: &str) -> String {
         shaped.push('`');
     }
     let mut shaped = shaped;
+    // `?` on a decoded extension addition: the expected type is the field's type, whatever it is
+    if shaped.contains("`?` operator has incompatible types") {
+        if let (Some(a), Some(b)) = (shaped.find("[expected `"), shaped.find("`, found")) {
+            if a < b {
+                shaped = format!("{}[expected `T{}", &shaped[..a], &shaped[b..]);
+            }
+        }
+    }
     for pat in ["T<T, ...>", "T<T, T>", "T<T>", "Option<Box<T>>", "Option<Vec<T>>", "Option<SetOf<T>>", "Option<SequenceOf<T>>"] {
         while shaped.contains(pat) {
             shaped = shaped.replace(pat, if pat.starts_with("Option") { "Option<T>" } else { "T" });
